@@ -591,9 +591,34 @@ def r4_fallback(w):
     return r
 
 
-RULES = [r1_option_mapping, r2_single_funnel, r3_bytes_out, r4_fallback]
+def _shared(rs, new_id):
+    old = rs.rule
+    rs.rule = new_id
+    for f in rs.findings:
+        f.rule = new_id
+        f.key = f.key.replace(old + '|', new_id + '|', 1)
+    return rs
+
+
+def r5_unchanged_means_equal(w):
+    """= C15.R2: the CLI prints / keeps the input for an `unchanged` result, which agrees with the library only if `unchanged` means byte-equal to
+    the library's text (seed C11/6B: a line-wise comparison made CR LF files and files without a final newline `unchanged`)"""
+    from rules import c15
+    return _shared(c15.r2_only_if_changed(w), 'C16.R5')
+
+
+def r6_every_input_is_printed(w):
+    """= C15.R4: "several files concatenated in argument order" - a batch loop that can be left before the last input (seed C16/6B: `try_fold` with
+    `?`) prints only a prefix of them"""
+    from rules import c15
+    return _shared(c15.r4_error_isolation(w), 'C16.R6')
+
+
+RULES = [r1_option_mapping, r2_single_funnel, r3_bytes_out, r4_fallback, r5_unchanged_means_equal, r6_every_input_is_printed]
 r1_option_mapping.needs = ('cli', 'core')
 r2_single_funnel.needs = ('cli', 'core')
 r3_bytes_out.needs = ('cli', 'core')
 r4_fallback.needs = ('core',)
+r5_unchanged_means_equal.needs = ('cli',)
+r6_every_input_is_printed.needs = ('cli',)
 MATRIX_RULES = RULES
